@@ -79,11 +79,29 @@ def check_rank(ctx):
                     if isinstance(x, ast.Call) and norm_src(x.func) == "sorted":
                         srt.append(ast.Assign(targets=[ast.parse(norm_src(x), mode="eval").body], value=x))
     arg = fn.args.args[1].arg
-    ok = len(inner) == 1 and len(srt) == 1
+    # the key function: a nested def, a lambda, or a method of the class given as key=self.m
+    kfun = None
+    ok = len(srt) == 1
     if ok:
         call = srt[0].value
-        kw = {k.arg: norm_src(k.value) for k in call.keywords}
-        ok = [norm_src(a) for a in call.args] == [arg] and kw == {"key": inner[0].name, "reverse": "True"}
+        kw = {k.arg: k.value for k in call.keywords}
+        kv = kw.get("key")
+        if isinstance(kv, ast.Name) and len(inner) == 1 and inner[0].name == kv.id:
+            kfun = inner[0]
+        elif isinstance(kv, ast.Lambda) and len(kv.args.args) == 1 and not inner:
+            kfun = ast.FunctionDef(name="<lambda>", args=kv.args, body=[ast.Return(value=kv.body)], decorator_list=[], lineno=kv.lineno, col_offset=0)
+            ast.fix_missing_locations(kfun)
+        elif is_self_attr(kv) and kv.attr in c.methods and not inner and len(c.methods[kv.attr].args.args) == 2:
+            m = c.methods[kv.attr]
+            kfun = ast.FunctionDef(name=m.name, args=ast.arguments(posonlyargs=[], args=[m.args.args[1]], kwonlyargs=[], kw_defaults=[], defaults=[]),
+                                   body=m.body, decorator_list=[], lineno=m.lineno, col_offset=0)
+        # the sorted collection: the layer handed in, possibly copied into a list first
+        a0 = call.args[0] if len(call.args) == 1 else None
+        while isinstance(a0, ast.Call) and isinstance(a0.func, ast.Name) and a0.func.id in ("list", "tuple") and len(a0.args) == 1 and not a0.keywords:
+            a0 = a0.args[0]
+        ok = kfun is not None and a0 is not None and norm_src(a0) == arg and set(kw) == {"key", "reverse"} and norm_src(kw["reverse"]) == "True"
+        if ok:
+            inner = [kfun]
     ctx.ob("R13-RANK", ok, c.file, q, "cells ordered by sorted(cells, key=lower confidence value, reverse=True)",
            norm_src(srt[0].value) if srt else "no sorted() call", fn.lineno)
     if not ok:
